@@ -659,6 +659,7 @@ func genOpq(g *hx.Gen) {
 		out = append(out, r.Bytes(r.Range(0, 10))...)
 		g.Stat("opq.huge-length")
 	}
+	g.Stat("opq")
 	g.Emit("opq data=%s", hx.Hex(out))
 }
 
@@ -671,6 +672,7 @@ func genHdr(g *hx.Gen) {
 	if len(b) > 1 && r.Chance(1, 2) {
 		b[1] = byte(r.PickInt(0, 1, 191, 192, 193, 223, 224, 225, 238, 254, 255))
 	}
+	g.Stat("hdr")
 	g.Emit("hdr data=%s", hx.Hex(b))
 }
 
@@ -688,6 +690,7 @@ func genMpi(g *hx.Gen) {
 	case 1:
 		b = append(b, r.Bytes(r.Range(1, 5))...)
 	}
+	g.Stat("mpi")
 	g.Emit("mpi data=%s", hx.Hex(b))
 }
 
@@ -741,6 +744,7 @@ func genOsub(g *hx.Gen) {
 		out = append(out, byte(r.Range(1, 191)))
 		out = append(out, r.Bytes(r.Range(0, 200))...)
 	}
+	g.Stat("osub")
 	g.Emit("osub data=%s", hx.Hex(out))
 }
 
@@ -869,9 +873,10 @@ func genSig(g *hx.Gen) {
 	r := g.R
 	st := byte(r.PickInt(0, 1, 0x10, 0x13, 0x18, 0x19, 0x20))
 	b := sigBody(r, g, r.PickInt(0, 1, 1, 2, 3), st)
-	if r.Chance(1, 40) {
+	if len(b) > 0 && r.Chance(1, 40) {
 		b[0] = byte(r.Intn(4)) // v3 branch (not modelled)
 	}
+	g.Stat("sig")
 	g.Emit("sig data=%s", hx.Hex(b))
 }
 
@@ -882,6 +887,7 @@ func genS2k(g *hx.Gen) {
 	if r.Chance(1, 10) {
 		b = b[:r.Intn(3)]
 	}
+	g.Stat("s2k")
 	g.Emit("s2k data=%s", hx.Hex(b))
 }
 
